@@ -21,7 +21,10 @@ model's `chainExt`); class, printed text and the total call count must equal the
 Samples: operands harvested from generated programs (`fv.gen`; nodes of the layer's classes are
 re-matched class by class from `node.string`), a shape generator (all literal forms, sections,
 components, substrings, constructors, keyword arguments, nested references to depth 6), and
-one-token deletions / duplications / parenthesis insertions of those.
+one-token deletions / duplications / parenthesis insertions of those, and UNBALANCED DEEP REFERENCES
+(depth 1..8, one surplus or missing parenthesis at every nesting level, one- and two-argument chains).
+A real run that exceeds the per-sample limit is a TIME-OUT (counted, not a disagreement): rejected inputs
+can be exponentially expensive (`f6(f5(f4(f3(f2(f1(x)))))))` needs 2 034 178 rule-constructor calls).
 
 Negative controls (each run): source-level mutations of the real code applied in-process (order of
 Primary's alternatives, Part_Ref accepting a trailing parenthesis, Array_Constructor printing `(/ /)`
@@ -53,6 +56,10 @@ STDS = ("f2003", "f2008")
 MAX_LEN = 120
 MAX_DEPTH = 7
 MAX_GROUPS = 14
+
+# per-sample wall-clock limit of the REAL run (seconds); a sample that exceeds it is counted as a time-out,
+# never as a disagreement (rejected inputs can be exponentially expensive: see EXPENSIVE below)
+SAMPLE_LIMIT = [3.0]
 
 EXTERNAL = ("Expr", "Int_Expr", "Type_Spec", "Type_Param_Spec_List", "Label", "Level_1_Expr")
 
@@ -169,20 +176,27 @@ class Recorder:
             if name in EXTERNAL:
                 rec.ext_depth += 1
             d = rec.depth
+            # `kind` stays "timeout" when the per-sample limit (CaseTimeout) cuts the call short: nothing is
+            # recorded then and the CaseTimeout travels on unchanged.  (Before this was fixed the `finally`
+            # below read an unbound `kind` and turned the time-out into an UnboundLocalError that looked
+            # like an exception of the real parser.)
+            obj = None
+            kind = "timeout"
             try:
                 obj = rec.orig(cls, string, parent_cls, _deepcopy)
                 kind = "ok"
+            except CaseTimeout:
+                raise
             except BaseException as e:  # noqa: BLE001
-                if isinstance(e, CaseTimeout):
-                    raise
-                obj = None
                 kind = exc_kind(e)
                 raise
             finally:
                 rec.depth -= 1
                 if name in EXTERNAL:
                     rec.ext_depth -= 1
-                if is_ext:
+                if kind == "timeout":
+                    pass
+                elif is_ext:
                     if kind == "ok":
                         sh = "<" + repr(obj) + ">"
                         rec.ext_ids[id(obj)] = sh
@@ -193,7 +207,7 @@ class Recorder:
                     lst = rec.ext.setdefault((name if parent_cls is None else "+" + name, string), [])
                     if ent not in lst:
                         lst.append(ent)
-                if d == 1 and isinstance(string, str):
+                if kind != "timeout" and d == 1 and isinstance(string, str):
                     rec.children.append((name, string, kind, str(obj) if kind == "ok" else "", obj))
             return obj
 
@@ -304,7 +318,7 @@ def ask_new(M, std, cname, text, ext):
 
 
 def compare_new(M, st, std, cname, text, rec):
-    with time_limit(10.0):
+    with time_limit(SAMPLE_LIMIT[0]):
         r = real_new(std, cname, text, rec)
     rep, asked, amb = ask_new(M, std, cname, text, r["ext"])
     st.n["levelB"] += 1
@@ -358,7 +372,7 @@ def item_desc(x):
 
 
 def compare_match(M, st, std, cname, text, rec):
-    with time_limit(10.0):
+    with time_limit(SAMPLE_LIMIT[0]):
         kind, res, children, cls = real_match(std, cname, text, rec)
     entries = []
     asked = []
@@ -518,6 +532,44 @@ def shapes(rng, n):
 
 def nested(d):
     return "x" if d == 0 else "f%d(%s)" % (d, nested(d - 1))
+
+
+def unbalanced_ref(d, k, kind, two_args):
+    """`fd(…f1(x)…)` (or `fd(…f1(x, y)…, y)`) with ONE parenthesis fault at nesting level k (1 = innermost):
+    kind = "surplus)" | "missing)" | "surplus(" """
+    t = "x"
+    for j in range(1, d + 1):
+        op, cl = "(", ")"
+        if j == k:
+            if kind == "surplus)":
+                cl = "))"
+            elif kind == "missing)":
+                cl = ""
+            else:
+                op = "(("
+        t = "f%d%s%s%s%s" % (j, op, t, ", y" if two_args else "", cl)
+    return t
+
+
+def unbalanced_deep():
+    """-> (cheap, expensive): unbalanced deep references, depth 1..8, a surplus / missing parenthesis at every
+    nesting level.  EXPENSIVE = the single-argument chain with a surplus `)` (the same text for every level):
+    the real parser REJECTS it but needs 238, 1546, 9394, 56482, 339010, 2034178, 12205186 `Base.__new__`
+    calls for depth 1..7 (x6 per level: every alternative that takes `name(args)` - Part_Ref, Array_Section,
+    Substring, Structure_Constructor, Function_Reference, Parenthesis - hands `args)` on and each of them
+    fails only at the bottom): depth >= 5 is run under a short limit and may time out."""
+    cheap, expensive = [], []
+    for d in range(1, 9):
+        for two in (True, False):
+            for kind in ("surplus)", "missing)", "surplus("):
+                for k in range(1, d + 1):
+                    t = unbalanced_ref(d, k, kind, two)
+                    if not two and kind == "surplus)":
+                        (cheap if d <= 4 else expensive).append(t)
+                    else:
+                        cheap.append(t)
+    dedup = lambda l: list(collections.OrderedDict.fromkeys(l))  # noqa: E731
+    return dedup(cheap), dedup(expensive)
 
 
 PROBES = (LITERALS + NAMES + [
@@ -812,7 +864,7 @@ def main(argv=None):
     ap = argparse.ArgumentParser()
     ap.add_argument("--seed", type=int, default=1)
     ap.add_argument("--n", type=int, default=100)
-    ap.add_argument("--max-seconds", type=float, default=40.0)
+    ap.add_argument("--max-seconds", type=float, default=34.0)
     ap.add_argument("--verbose", action="store_true")
     a = ap.parse_args(argv)
     t0 = time.time()
@@ -900,6 +952,30 @@ def main(argv=None):
                 compare_match(M, st, "f2003", mc, t, rec)
             except CaseTimeout:
                 timeouts += 1
+
+    # unbalanced deep references (depth 1..8, a surplus / missing parenthesis at every nesting level)
+    cheap, expensive = unbalanced_deep()
+    for std in STDS:
+        set_std(std)
+        for t in cheap:
+            try:
+                r = compare_new(M, st, std, "Primary", t, rec)
+                st.n["unbalanced deep references"] += 1
+                if r and r["kind"] == "ok":
+                    st.disagree("unbalanced reference ACCEPTED by the real parser", std, "Primary", t, r["str"])
+            except CaseTimeout:
+                timeouts += 1
+        old_limit = SAMPLE_LIMIT[0]
+        SAMPLE_LIMIT[0] = 0.5
+        try:
+            for t in expensive:
+                try:
+                    compare_new(M, st, std, "Primary", t, rec)
+                    st.n["unbalanced deep references"] += 1
+                except CaseTimeout:
+                    st.n["unbalanced deep references: EXPENSIVE rejections cut off at 0.5 s (known finding, not a failure)"] += 1
+        finally:
+            SAMPLE_LIMIT[0] = old_limit
 
     # CLOSED model (no external answers): the expression chain is the model's own `chainExt`; exact for
     # references over plain names / integer literals (the family of finding F-C20-1), any nesting
